@@ -171,11 +171,57 @@ def gen_key(rng, n):
     return -rng.randint(1, n + 2)
 
 
+def gen_small_sweep(rng):
+    """containers of 0, 1 and 2 elements (grown one element at a time, attribute cleared, container cleared) for one
+    type / arity / default, both storages in lock-step, exporting at every size"""
+    t = rng.choice(TYPES)
+    k = rng.choice([1, 1, 2, 3])
+    d = gen_comp(rng, TKIND[t]) if rng.random() < 0.4 else None
+    if d is not None and d[0] in "bif":
+        d[2] = "py"
+    corner = rng.random() < 0.2
+    ops = []
+    n = rng.choice([0, 0, 1])
+    ops += [["append"]] * n
+    for a, dense in ((0, False), (1, True)):
+        ops.append(["create", a, t, k, dense, d])
+
+    def both(o):
+        for a in (0, 1):
+            ops.append([o[0], a] + o[1:])
+    both(["as_array"])
+    for _ in range(rng.choice([2, 3])):
+        grow = rng.choice([["append"], ["append"], ["extend_list", 1, "list"], ["extend_other", 1, False]])
+        ops.append(grow)
+        n += 1
+        if rng.random() < 0.7:
+            v = gen_value(rng, t, k, False)
+            key = rng.randrange(n)
+            both(["set", key, v])
+        both(["as_array"])
+        if rng.random() < 0.3:
+            both(["get", rng.randrange(n)])
+        if rng.random() < 0.3:
+            both(["clear_attr"])
+            both(["as_array"])
+    if rng.random() < 0.4:
+        ops.append(["clear_all"])
+        n = 0
+        for a, dense in ((0, False), (1, True)):
+            ops.append(["create", a, t, k, dense, d])
+        both(["as_array"])
+        ops.append(["append"])
+        both(["as_array"])
+    return {"cont": "corner" if corner else "data", "ops": ops, "lock": True}
+
+
 LENS = [0, 1, 2, 3, 5, 8, 12, 20, 30, 40]
 
 
 def gen_history(rng, maxlen=40):
     """A history over one container; attributes come in twins (2L sparse, 2L+1 dense) driven in lock-step, or singly."""
+    if rng.random() < 0.12:
+        return gen_small_sweep(rng)
     lock = rng.random() < 0.85
     corner = rng.random() < 0.15
     L = rng.choice(LENS)
@@ -609,6 +655,10 @@ class Oracle:
                 return "%s answered %s for a container of %d elements" % (nm, o, self.n)
             if nm == "as_array":
                 self.refs.append(("arr", op[1], A["uid"]))
+                want = [d for d in (self.n, A["k"]) if d != 1]       # (n, arity) without its axes of length 1 (np.squeeze)
+                if len(o) >= 4 and (o[2] != want or o[3] != A["t"]):
+                    return "as_array of %s attribute of arity %d on %d elements has shape %s dtype %s, both storages export shape %s dtype %s" % (
+                        "dense" if A["dense"] else "sparse", A["k"], self.n, tuple(o[2]), o[3], tuple(want), A["t"])
             for j in range(self.n):
                 e = self.expected_row(A, j)
                 if e == UNKNOWN:
@@ -749,6 +799,7 @@ def classify(msg):
                      ("shared-default-object", "after the in-place update"),
                      ("container-iadd-container", "extend_other failed"),
                      ("container-iadd-self", "extend_self"),
+                     ("export-shape", "both storages export shape"),
                      ("accepted-malformed-value", "accepted the value"),
                      ("vector-default-read", "read of an arity"),
                      ("alignment", "not aligned")):
@@ -921,7 +972,18 @@ def obs_term(o, I):
 
 def case_term(case, obs):
     I = Interner()
-    items = ["(%s, %s)" % (op_term(op, I), obs_term(o, I)) for op, o in zip(case["ops"], obs)]
+    items = []
+    for op, o in zip(case["ops"], obs):
+        items.append("(%s, %s)" % (op_term(op, I), obs_term(o, I)))
+        if op[0] == "as_array":
+            # the same export seen through its shape and dtype (a second, state-neutral model operation)
+            if o[0] == "rows" and len(o) >= 4:
+                w = "(OShape %s %s)" % (zlist(o[2]), TYT.get(o[3], "TBool") if o[3] in TYT else "TBool")
+                if o[3] not in TYT:
+                    w = "OOther"
+            else:
+                w = obs_term(o, I)
+            items.append("((ExportShape %s), %s)" % (zlit(op[1]), w))
     return "(%s, %s)" % (coq_bool(case["cont"] == "corner"), coq_list(items))
 
 
